@@ -69,7 +69,8 @@ func LoadKnownFindings() *KnownFindings {
 	}
 	for _, e := range kf.Entries {
 		if e.Status == "known" {
-			if _, ok := matchers[e.Matcher]; !ok {
+			_, ok2 := rawMatchers[e.Matcher]
+			if _, ok := matchers[e.Matcher]; !ok && !ok2 {
 				fmt.Fprintf(os.Stderr, "machinery error: known_findings.json names unknown matcher %q\n", e.Matcher)
 				os.Exit(2)
 			}
@@ -91,7 +92,7 @@ func (kf *KnownFindings) Match(prop string, v *Violation, hist []Op, cfg Cfg) st
 				ok = true
 			}
 		}
-		if ok && matchers[e.Matcher](c) {
+		if f, has := matchers[e.Matcher]; ok && has && f(c) {
 			return e.ID
 		}
 	}
@@ -157,4 +158,25 @@ func (kf *KnownFindings) Report(prop string) map[string]any {
 		out[id] = map[string]any{"count": n.count, "first": n.first}
 	}
 	return out
+}
+
+// rawMatchers: matchers for violations found by non-E1 engines; they see the violation text.
+var rawMatchers = map[string]func(prop, text string) bool{}
+
+func (kf *KnownFindings) MatchRaw(prop, text string) string {
+	for _, e := range kf.Entries {
+		if e.Status != "known" {
+			continue
+		}
+		ok := false
+		for _, p := range e.Properties {
+			if p == prop {
+				ok = true
+			}
+		}
+		if m, has := rawMatchers[e.Matcher]; ok && has && m(prop, text) {
+			return e.ID
+		}
+	}
+	return ""
 }
